@@ -139,4 +139,54 @@ example : ∃ (p : Cog11.P) (r t : ℝ), 0 < r ∧ 0 < t ∧ 2 - (p.gamma - 1) *
   simp only [cog11_alpha]
   norm_num
 
+/-! ### The returned fields (tree level)
+
+The path conditions are `t ≤ 0` (NaN fields) and the range test of α that selects the printed
+warning; where the solver returns numbers the returned fields are those of leaf 1. -/
+
+
+theorem cog11_tree (p : Cog11.P) (r t : ℝ) (h : Cog11.outcome p r t = .ok) :
+    0 < t ∧ AgreeAt (Cog11.density p) (Cog11.L1.density p) r t
+      ∧ AgreeAt (Cog11.velocity p) (Cog11.L1.velocity p) r t
+      ∧ AgreeAt (Cog11.temperature p) (Cog11.L1.temperature p) r t := by
+  have ht : 0 < t := by
+    by_contra hc
+    have hc' : t ≤ 0 := not_lt.mp hc
+    simp [epv_tree, epv_cond, hc'] at h
+  have e : ∀ x s, 0 < s → Cog11.density p x s = Cog11.L1.density p x s
+      ∧ Cog11.velocity p x s = Cog11.L1.velocity p x s
+      ∧ Cog11.temperature p x s = Cog11.L1.temperature p x s := by
+    intro x s hs
+    have hns : ¬ s ≤ 0 := not_le.mpr hs
+    simp only [epv_tree, Cog11.c0, hns, if_false]
+    split_ifs <;> exact ⟨rfl, rfl, rfl⟩
+  refine ⟨ht, ⟨fun x => (e x t ht).1, ?_⟩, ⟨fun x => (e x t ht).2.1, ?_⟩, ⟨fun x => (e x t ht).2.2, ?_⟩⟩
+  · filter_upwards [Ioi_mem_nhds ht] with s hs using (e r s hs).1
+  · filter_upwards [Ioi_mem_nhds ht] with s hs using (e r s hs).2.1
+  · filter_upwards [Ioi_mem_nhds ht] with s hs using (e r s hs).2.2
+
+/-- mass balance of the returned (tree-level) fields -/
+theorem cog11_mass_tree (p : Cog11.P) (r t : ℝ) (h : Cog11.outcome p r t = .ok) (hr : 0 < r) :
+    massRes (Cog11.density p) (Cog11.velocity p) (p.geometry - 1) r t = 0 := by
+  obtain ⟨ht, hρ', hu', hT'⟩ := cog11_tree p r t h
+  rw [massRes_congr hρ' hu']
+  exact cog11_mass_L1 p r t hr ht
+
+/-- momentum balance of the returned (tree-level) fields -/
+theorem cog11_momentum_tree (p : Cog11.P) (r t : ℝ) (h : Cog11.outcome p r t = .ok) (hr : 0 < r) (hρ : p.rho0 ≠ 0) :
+    momResT (Cog11.density p) (Cog11.velocity p) (Cog11.temperature p) p.Gamma r t = 0 := by
+  obtain ⟨ht, hρ', hu', hT'⟩ := cog11_tree p r t h
+  rw [momResT_congr hρ' hu' hT']
+  exact cog11_momentum_L1 p r t hr ht hρ
+
+/-- energy balance of the returned (tree-level) fields -/
+theorem cog11_energy_tree (p : Cog11.P) (r t : ℝ) (h : Cog11.outcome p r t = .ok) (hr : 0 < r)
+    (hc : 2 - (p.gamma - 1) * ((p.geometry - 1) + 1) ≠ 0) (hγ : p.gamma - 1 ≠ 0)
+    (hρ : 0 < p.rho0) (hT : 0 < p.temp0) (hα : p.alpha_ = cog11_alpha p) (hβ : p.beta_ = p.beta) :
+    energyResT (Cog11.density p) (Cog11.velocity p) (Cog11.temperature p) p.Gamma p.gamma
+      (p.geometry - 1) p.c_light p.a_rad p.lam0_ p.alpha_ p.beta_ r t = 0 := by
+  obtain ⟨ht, hρ', hu', hT'⟩ := cog11_tree p r t h
+  rw [energyResT_congr hρ' hu' hT']
+  exact cog11_energy_L1 p r t hr ht hc hγ hρ hT hα hβ
+
 end EPV.C01
